@@ -1,7 +1,7 @@
 (** * C03 -- in all-compliant mode every instance conforms to its extracted shape *)
 From Coq Require Import List Ascii String ZArith NArith Bool.
 From Shexer Require Import Lib.PyStr Lib.Dict Lib.Bin64 Gen.Consts Spec.Rdf Spec.ShexSem Model.Tracker Model.Profiler
-     Model.Freq Model.FreqInst Model.Shexing Model.Run Model.SchemaOf Proofs.Bin64Round Proofs.FreqLaws Proofs.ConformProofs.
+     Model.Freq Model.FreqInst Model.Shexing Model.Run Model.SchemaOf Model.C03Dom Proofs.Bin64Round Proofs.FreqLaws Proofs.ConformProofs.
 Import ListNotations.
 
 (** ** T1 -- switching the mode off never changes a cardinality.
